@@ -38,15 +38,20 @@ def jobs_for(tier, mir, repo, facts):
     bf = facts['buffered']
     if bf['channel'] == 'other':
         raise Unsupported('MIRBMC: the capacity of the Buffered channel is neither buffer_size nor unbounded')
+    pj, bj = facts.get('pipe_drop', {}).get('joins'), facts.get('buffered_drop', {}).get('joins')
     for W in Ws:
         K = 20 if tier == 'quick' else 26
         base = {'which': 'pipe', 'W': W, 'cap': W if facts['capacity_is_num_threads'] else UNBOUNDED_CAP, 'N': 3, 'n_mode': 'unbounded',
                 'mir': mir, 'repo': repo}
         jobs.append(dict(base, name='pipe W=%d lookahead' % W, K=K, cfg={}, query='lookahead', lookahead_bound=2 * W))
         jobs.append(dict(base, name='pipe W=%d lookahead tight' % W, K=K, cfg={}, query='lookahead_tight', lookahead_bound=2 * W))
-        jobs.append(dict(base, name='pipe W=%d drop: further pulls' % W, K=K, cfg={'allow_drop': True}, query='drop_pulls', drop_bound=W))
-        jobs.append(dict(base, name='pipe W=%d drop: workers exit' % W, K=K, cfg={'allow_drop': True}, query='drop_stuck'))
-        jobs.append(dict(base, name='pipe W=%d drop witness' % W, K=K, cfg={'allow_drop': True}, query='drop_witness'))
+        if pj:
+            # Drop for Pipe joins the workers before the receiver goes away
+            jobs.append(dict(base, name='pipe W=%d drop: workers exit' % W, K=K, cfg={}, query='drop_join_blocks'))
+        else:
+            jobs.append(dict(base, name='pipe W=%d drop: further pulls' % W, K=K, cfg={'allow_drop': True}, query='drop_pulls', drop_bound=W))
+            jobs.append(dict(base, name='pipe W=%d drop: workers exit' % W, K=K, cfg={'allow_drop': True}, query='drop_stuck'))
+            jobs.append(dict(base, name='pipe W=%d drop witness' % W, K=K, cfg={'allow_drop': True}, query='drop_witness'))
         pc = {'allow_panic': True, 'hook_exits': bool(facts['hook_before_spawn'] and facts['hook_exits'])}
         jobs.append(dict(base, name='pipe W=%d panic => exit' % W, K=12, cfg=pc, query='panic'))
         jobs.append(dict(base, name='pipe W=%d panic witness' % W, K=12, cfg=pc, query='panic_witness'))
@@ -57,12 +62,16 @@ def jobs_for(tier, mir, repo, facts):
         bc = {'enumerate': False, 'pull_needs_lock': False}
         jobs.append(dict(base, name='buffered size=%d lookahead' % cap, K=K, cfg=bc, query='lookahead', lookahead_bound=cap + 1))
         jobs.append(dict(base, name='buffered size=%d lookahead tight' % cap, K=K, cfg=bc, query='lookahead_tight', lookahead_bound=cap + 1))
+        if bj:
+            jobs.append(dict(base, name='buffered size=%d drop: producer exits' % cap, K=K, cfg=dict(bc), query='drop_join_blocks'))
+            continue
         jobs.append(dict(base, name='buffered size=%d drop: further pulls' % cap, K=K, cfg=dict(bc, allow_drop=True), query='drop_pulls', drop_bound=1))
         jobs.append(dict(base, name='buffered size=%d drop: producer exits' % cap, K=K, cfg=dict(bc, allow_drop=True), query='drop_stuck'))
     return jobs
 
 
-CLAIMS = {'lookahead': 'while the consumer is idle only a bounded number of items is pulled ahead of what was consumed',
+CLAIMS = {'drop_join_blocks': 'after the consumer drops the iterator every background thread exits (none is left spinning or blocked)',
+          'lookahead': 'while the consumer is idle only a bounded number of items is pulled ahead of what was consumed',
           'drop_pulls': 'after the consumer drops the iterator every background thread stops pulling upstream items within the bound',
           'drop_stuck': 'after the consumer drops the iterator every background thread exits (none is left spinning or blocked)',
           'panic': 'if the processing function panics the process terminates instead of leaving the consumer blocked'}
@@ -81,7 +90,7 @@ def native_replay(native_factory, r):
         bound = 8 * (r.get('lookahead_bound', 2 * W) + 2)
         if k != 'ok' or v['pulled_end'] - len(v['outputs']) > bound:
             failed.append(CLAIMS[q])
-    elif q in ('drop_pulls', 'drop_stuck'):
+    elif q in ('drop_pulls', 'drop_stuck', 'drop_join_blocks'):
         for consume in (0, 1, 3):
             k, v = native_ok(native.call(which, n=100000, w=W, buffer=cap, delays_ms=[], consume=consume, then='drop', settle_ms=400, _timeout=12.0))
             if k == 'timeout':
@@ -130,6 +139,11 @@ def custom_main(tier, seed, mir, repo, get_native, procs):
     facts = pipe_facts(prog, repo)
     facts['buffered'] = buffered_facts(prog, repo)
     incon, violations, lines = [], [], []
+    try:
+        facts['pipe_drop'] = drop_facts(prog, 'pipe')
+        facts['buffered_drop'] = drop_facts(prog, 'buffered')
+    except Unsupported as e:
+        incon.append(str(e))
     results = run_jobs(jobs_for(tier, mir, repo, facts), procs)
     native = get_native()
     # num_threads = 0: the unthreaded branch must be lazy (MIRSE sub-harness, lookahead claim only)
